@@ -76,6 +76,10 @@ def inputs(tier):
         for layout in ('line', 'star'):
             out.append(dict(src='corpus', d=corpus.cluster_desc(ks, layout, 3.0, 'deep')))
     out.append(dict(src='corpus', d=corpus.cutout_desc('4DFR', 'B', 26, 8.0)))
+    # multi-conformation inputs (every conformation and the average are compared)
+    for d in (dict(kind='alt', layout=[['A', 'ASP'], ['B', 'ASPs']], lys=[['B', 'LYSs'], ['C', 'LYS']]),
+              dict(kind='model', layout=[[1, 'ASP'], [2, 'ASPnoCG'], [3, 'ASPs']])):
+        out.append(dict(src='c08', d=d))
     # disulfides exactly along an axis, slid over the cell grid
     for d in (2.05, 2.3, 2.49):
         out.append(dict(src='ss-scan', d=d))
@@ -336,6 +340,12 @@ def run_case(case, ctx, acc):
     base_opts = cfg_opts(case)
     if case['src'] == 'flat':
         s = flat_fragment(case['kind']).translate(gen.seed_offset(ctx.seed))
+    elif case['src'] == 'c08':
+        from . import c08
+        d = dict(case['d'], layout=[tuple(x) for x in case['d']['layout']])
+        if d.get('lys'):
+            d['lys'] = [tuple(x) for x in d['lys']]
+        s = c08.build(d, ctx.seed)
     else:
         s = corpus.build(case['d'], ctx.seed)
     amino = c07.amino_only(s)
@@ -356,7 +366,7 @@ def run_case(case, ctx, acc):
         pk.seam_unrounded_hydrogens(False)
         mp = pk.run(text0, base_opts)
         rp = pk.record(mp)
-        fed = c07.hydrogens_fed_back(s, mp) if amino else None
+        fed = c07.hydrogens_fed_back(s, mp) if amino and case['src'] != 'c08' else None    # (feedback is written for one conformation)
         rk0 = None
         shared, rs0, bs0 = None, None, None
         if fed is not None:
